@@ -1,5 +1,8 @@
 import Mathlib.Tactic.Ring
 import Mathlib.Tactic.Linarith
+import Mathlib.Tactic.FieldSimp
+import Mathlib.Tactic.Positivity
+import Mathlib.Tactic.SplitIfs
 import Mathlib.Data.Rat.Defs
 import Mathlib.Algebra.Order.Field.Rat
 import PeptVerif.Spec.Mass
@@ -72,6 +75,39 @@ theorem chemMassL_merge (m : Elem → Rat) (a b : Comp) :
 
 theorem chemMassL_map_mul (m : Elem → Rat) (k : Rat) (c : Comp) :
     chemMassL m (c.map fun p => (p.1, p.2 * k)) = k * chemMassL m c := chemMassL_scale m k c
+
+
+theorem roundHalfEvenInt_bound (x : Rat) :
+    ((roundHalfEvenInt x : Int) : Rat) - x ≤ 1 / 2 ∧ x - ((roundHalfEvenInt x : Int) : Rat) ≤ 1 / 2 := by
+  have h1 := Rat.floor_le x
+  have h2 := Rat.lt_floor_add_one x
+  push_cast at h2
+  unfold roundHalfEvenInt
+  simp only []
+  split_ifs <;> constructor <;> push_cast <;> linarith
+
+theorem pow10_pos (n : Nat) : 0 < pow10 n := by
+  unfold pow10
+  exact_mod_cast Nat.pos_of_ne_zero (by positivity)
+
+/-- `round(x, p)` for `p ≥ 0` on the exact rational is within half a unit of the last place -/
+theorem pyRound_bound (q : Rat) (p : Nat) :
+    pyRound q (p : Int) - q ≤ 1 / 2 / pow10 p ∧ q - pyRound q (p : Int) ≤ 1 / 2 / pow10 p := by
+  have hP := pow10_pos p
+  have hb := roundHalfEvenInt_bound (q * pow10 p)
+  have key : pyRound q (p : Int) = ((roundHalfEvenInt (q * pow10 p) : Int) : Rat) / pow10 p := by
+    unfold pyRound
+    simp
+  rw [key]
+  constructor
+  · have : ((roundHalfEvenInt (q * pow10 p) : Int) : Rat) / pow10 p - q
+        = (((roundHalfEvenInt (q * pow10 p) : Int) : Rat) - q * pow10 p) / pow10 p := by field_simp
+    rw [this]
+    exact (div_le_div_iff_of_pos_right hP).mpr hb.1
+  · have : q - ((roundHalfEvenInt (q * pow10 p) : Int) : Rat) / pow10 p
+        = (q * pow10 p - ((roundHalfEvenInt (q * pow10 p) : Int) : Rat)) / pow10 p := by field_simp
+    rw [this]
+    exact (div_le_div_iff_of_pos_right hP).mpr hb.2
 
 end Chem
 
